@@ -7,7 +7,10 @@ package c17
 
 import (
 	"context"
+	"encoding/json"
 	"fmt"
+	"os"
+	"path/filepath"
 	"runtime"
 	"runtime/debug"
 	"sort"
@@ -192,10 +195,84 @@ func (c Case) dims() (nClients, nAcc int) {
 
 // ---- run -----------------------------------------------------------------------------------------
 
+// A panic on one of the engine's own goroutines (stream read / write loop, dispatch loop,
+// dial worker) cannot be recovered and kills the process; the running case is therefore
+// flushed first and check.json names the fatal patterns, so the driver reports the death
+// of a shard as a violation with this case as its replay file.
+func writeCurrentCase(c Case) {
+	dir := os.Getenv("VERIF_REPLAY_OUT")
+	if dir == "" || os.Getenv("VERIF_REPLAY") != "" {
+		return
+	}
+	os.MkdirAll(dir, 0o755)
+	b, err := json.Marshal(map[string]any{"property": prop, "test": currentTest,
+		"error": "the process died (panic / fatal error inside the pubsub engine) while this case was running", "case": c})
+	if err != nil {
+		return
+	}
+	tmp := filepath.Join(dir, ".current-case.tmp")
+	if os.WriteFile(tmp, b, 0o644) == nil {
+		os.Rename(tmp, filepath.Join(dir, "current-case.json"))
+	}
+}
+
+func removeCurrentCase() {
+	if dir := os.Getenv("VERIF_REPLAY_OUT"); dir != "" {
+		os.Remove(filepath.Join(dir, "current-case.json"))
+	}
+}
+
+// watchdog: an engine goroutine that panics while holding the engine's interest lock does
+// not kill the process — the stream's deferred close re-enters the lock and the goroutine
+// hangs in its own panic, so the bubble never quiesces. A case that is still running after
+// a generous real-time limit is therefore dumped; if the dump shows a panic or a lock wait
+// inside the engine it is reported as a runtime-fatal condition (check.json fatal_patterns),
+// otherwise as a harness problem (inconclusive).
+func watchdog(finished <-chan struct{}, limit time.Duration) {
+	select {
+	case <-finished:
+		return
+	case <-time.After(limit):
+	}
+	buf := make([]byte, 8<<20)
+	buf = buf[:runtime.Stack(buf, true)]
+	engine := false
+	for _, g := range strings.Split(string(buf), "\n\n") {
+		inEngine := strings.Contains(g, "any-sync/commonspace/pubsub.") || strings.Contains(g, "any-sync/net/streampool.")
+		stuck := strings.Contains(g, "panic(") || strings.Contains(g, "[sync.Mutex.Lock") || strings.Contains(g, "[sync.RWMutex")
+		if inEngine && stuck {
+			engine = true
+			fmt.Fprintf(os.Stderr, "stuck engine goroutine:\n%s\n\n", g)
+		}
+	}
+	if engine {
+		if os.Getenv("VERIF_REPLAY") != "" {
+			fmt.Printf("REPLAY-FAILED property=%s test=%s\n", prop, currentTest)
+		}
+		fmt.Fprintf(os.Stderr, "fatal error: C17 watchdog: the case did not come to rest within %v; an engine goroutine is stuck in a panic or on an engine lock\n", limit)
+	} else {
+		removeCurrentCase() // not the engine's doing: no verdict, no replay file
+		fmt.Fprintf(os.Stderr, "HARNESS: C17 watchdog: the case did not come to rest within %v\n%s\n", limit, buf)
+	}
+	os.Exit(2)
+}
+
+// currentTest names the generating test in the flushed case (set next to outerT).
+var currentTest = "TestRandom"
+
 func run(c Case) (vstat.Outcome, error) {
 	if c.Kind == kindValidate {
 		return runValidate(c)
 	}
+	writeCurrentCase(c)
+	defer removeCurrentCase()
+	limit := 10 * time.Second
+	if c.Kind == kindSweep {
+		limit = 5 * time.Minute
+	}
+	finished := make(chan struct{})
+	defer close(finished)
+	go watchdog(finished, limit) // outside the bubble: real time
 	if outerT == nil {
 		return vstat.Outcome{}, fmt.Errorf("HARNESS: outerT not set")
 	}
